@@ -138,11 +138,11 @@ Section Partial.
         cbn [fst app] in S2. subst failed2.
         destruct (torec && unsync).
         * destruct (repair_step hashf padz bs nlev pos fm2 rec buf3 jn2) as [[[r2 buf4] jn4] tags2] eqn:Er2.
-          destruct r2; cbn in H; [| destruct (n + n0); discriminate H | destruct (n + 0); discriminate H].
+          destruct r2; cbn in H. 2: { revert H; destruct (n + n0); intro H; discriminate H. } 2: { revert H; destruct (n + 0); intro H; discriminate H. }
           injection H as H1 H2 H3 H4. subst failed'. exfalso.
           apply in_map_iff in Hin. destruct Hin as [e [Ee He]]. subst e'. unfold s2mark, fe_is in *.
-          destruct (fe_state e) as [[| |]|]; cbn in *; discriminate.
-        * cbn in H. destruct n; discriminate H.
+          destruct (fe_state e) as [[| |]|] eqn:Es; cbn in *; try rewrite Es in *; cbn in *; discriminate.
+        * cbn in H. revert H; destruct n; intro H; discriminate H.
       + (* strategy 1 had no strategy *)
         match type of H with context [fold_left ?g failed ([], [], buf2, false, false)] => set (g2 := g) in *;
           assert (S2 : fst (fst (fst (fst (fold_left g2 failed ([], [], buf2, false, false))))) = [] ++ map s2mark failed) by (exact (s2_fold failed [] [] buf2 false false));
@@ -150,10 +150,10 @@ Section Partial.
         cbn [fst app] in S2. subst failed2.
         destruct (torec && unsync).
         * destruct (repair_step hashf padz bs nlev pos fm2 rec buf3 jn2) as [[[r2 buf4] jn4] tags2] eqn:Er2.
-          destruct r2; cbn in H; [| destruct n; discriminate H | discriminate H].
+          destruct r2; cbn in H. 2: { revert H; destruct n; intro H; discriminate H. } 2: { discriminate H. }
           injection H as H1 H2 H3 H4. subst failed'. exfalso.
           apply in_map_iff in Hin. destruct Hin as [e [Ee He]]. subst e'. unfold s2mark, fe_is in *.
-          destruct (fe_state e) as [[| |]|]; cbn in *; discriminate.
+          destruct (fe_state e) as [[| |]|] eqn:Es; cbn in *; try rewrite Es in *; cbn in *; discriminate.
         * cbn in H. discriminate H.
   Qed.
 End Partial.
